@@ -12,8 +12,11 @@ INV = [
     "ghost.data_frames_after_close == 0",                                        # no data frame follows it
     "ghost.n_onclose <= 1 and implies(ghost.n_onclose == 1, self.state == 0)",   # onClose fires once, in CLOSED
     "implies(self.state == 3, ghost.close_frames == 0)",
+    "implies(self.state == 2, ghost.close_frames == 1)",                         # CLOSING is entered by sending it
 ]
 MONO = "rank(self.state) >= rank(old(self.state))"
+NOT_CLEANER = ("implies(self.wasClean, old(self.wasClean)) and "      # failing never turns an unclean close into a clean one
+               "implies(old(self.state) != 3, ghost.last_close_payload == old(ghost.last_close_payload))")
 
 GHOST_FRAME = ["ghost.close_frames", "ghost.last_close_payload", "ghost.data_frames_after_close", "ghost.frames_sent",
                "ghost.last_frame_opcode", "ghost.last_frame_payload", "ghost.last_frame_fin", "ghost.last_frame_rsv",
@@ -26,6 +29,7 @@ FAIL_MOD = sorted(set(["self.failedByMe", "self.wasClean", "self.wasNotCleanReas
 
 def build(reg):
     build_shapes(reg)
+    reg.mark_inline(WSP + ".onAutoPong", WSP + ".onOpen", WSP + ".onPong", WSP + ".onMessage", WSP + ".onClose")
     common = dict(spec_module="specs.ws")
 
     # ---------------------------------------------------------------- frame emission (event primitive for ghost state)
@@ -62,7 +66,7 @@ def build(reg):
         WSP + "._fail_connection", props=["C05", "C02", "C16"], params=dict(S, code="range:1000:1011", reason="str"),
         requires=INV, modifies=FAIL_MOD,
         ensures=INV + [
-            MONO,
+            MONO, NOT_CLEANER,
             "implies(old(self.state) != 0, self.failedByMe)",
             "implies(old(self.state) == 0, self.failedByMe == old(self.failedByMe) and ghost.n_drop == old(ghost.n_drop) "
             "and ghost.close_frames == old(ghost.close_frames) and self.wasClean == old(self.wasClean))",
@@ -84,7 +88,7 @@ def build(reg):
             WSP + "." + name, props=props, params=dict(S, reason="str"), returns="bool",
             requires=INV + ["self.state != 1 and self.state != 4"], modifies=FAIL_MOD,
             ensures=INV + [
-                MONO, "result == self.failByDrop",
+                MONO, NOT_CLEANER, "result == self.failByDrop",
                 "implies(old(self.state) != 0, self.failedByMe)",
                 "implies(old(self.state) == 0, self.failedByMe == old(self.failedByMe) and ghost.n_drop == old(ghost.n_drop) "
                 "and ghost.close_frames == old(ghost.close_frames))",
@@ -102,7 +106,7 @@ def build(reg):
         params=dict(S, msg_size="int", max_msg_size="int", reason="str"),
         requires=INV + ["self.state != 1 and self.state != 4"], modifies=FAIL_MOD,
         ensures=INV + [
-            MONO, "implies(old(self.state) != 0, self.failedByMe)",
+            MONO, NOT_CLEANER, "implies(old(self.state) != 0, self.failedByMe)",
             "implies(old(self.state) != 0 and self.failByDrop, self.state == 0 and not self.wasClean and "
             "ghost.n_drop == old(ghost.n_drop) + 1)",
             "implies(old(self.state) == 3 and not self.failByDrop, self.state == 2 and "
@@ -140,8 +144,9 @@ def build(reg):
 
     reg.contract(
         "autobahn.util:encode_truncate", props=["C05"], verify=False,
-        params={"text": "str", "limit": "nat", "encoding": "str", "return_encoded": "bool"}, returns="bytes",
-        ensures=["len(result) <= limit", "utf8_valid(result)"], **common)
+        params={"text": "opt:str", "limit": "nat", "encoding": "str", "return_encoded": "bool"}, returns="opt:bytes",
+        ensures=["(result is None) == (text is None)",
+                 "implies(result is not None, len(result) <= limit and utf8_valid(result))"], **common)
 
     reg.contract(
         WSP + ".sendClose", props=["C05"], params=dict(S, code="none|int|bool|str|bytes", reason="none|str|int|bytes"),
@@ -164,3 +169,395 @@ def build(reg):
                              "(isinstance(reason, str) and code is not None))"},
         raises_ensures={"Exception": ["ghost.frames_sent == old(ghost.frames_sent) and self.state == old(self.state)"]},
         **common)
+
+    build_close(reg, common)
+    build_receive(reg, common)
+
+
+def build_close(reg, common):
+    TIMER_ACTIVE = "({f} is not None and {f}.active and {f}.delay == {d} and {f}.kind == {k})"
+    # ---------------------------------------------------------------- timeout handlers (C05 forward-only, C17 no effect when closed)
+    NOEFFECT = ("self.wasClean == old(self.wasClean) and self.wasNotCleanReason is old(self.wasNotCleanReason) and "
+                "ghost.n_drop == old(ghost.n_drop) and self.state == 0 and self.droppedByMe == old(self.droppedByMe)")
+    for name, field, flag, guard_open in (
+            ("onCloseHandshakeTimeout", "closeHandshakeTimeoutCall", "wasCloseHandshakeTimeout", "old(self.state) != 0"),
+            ("onServerConnectionDropTimeout", "serverConnectionDropTimeoutCall", "wasServerConnectionDropTimeout",
+             "old(self.state) != 0"),
+            ("onOpenHandshakeTimeout", "openHandshakeTimeoutCall", "wasOpenHandshakeTimeout",
+             "(old(self.state) == 1 or old(self.state) == 4)")):
+        reg.contract(
+            WSP + "." + name, props=["C05", "C17"], params=dict(S), requires=INV,
+            modifies=["self." + field, "self.wasClean", "self.wasNotCleanReason", "self." + flag] + DROP_MOD,
+            ensures=INV + [
+                MONO, "self.%s is None" % field,
+                # deadline passed and the condition still holds: drop, unclean, with the corresponding reason flag
+                "implies(%s, self.state == 0 and not self.wasClean and self.%s and self.wasNotCleanReason is not None and "
+                "ghost.n_drop == old(ghost.n_drop) + 1 and ghost.drop_abort)" % (guard_open, flag),
+                # otherwise the timer has no effect at all
+                "implies(not %s, self.wasClean == old(self.wasClean) and self.wasNotCleanReason is old(self.wasNotCleanReason) "
+                "and ghost.n_drop == old(ghost.n_drop) and self.state == old(self.state) and "
+                "self.droppedByMe == old(self.droppedByMe) and self.%s == old(self.%s))" % (guard_open, flag, flag),
+            ], **common)
+    reg.contract(
+        WSP + ".onAutoPingTimeout", props=["C05", "C17"], params=dict(S), requires=INV,
+        modifies=["self.autoPingTimeoutCall", "self.wasClean", "self.wasNotCleanReason"] + DROP_MOD,
+        ensures=INV + [
+            MONO, "self.autoPingTimeoutCall is None",
+            "implies(old(self.state) != 0, self.state == 0 and not self.wasClean and self.wasNotCleanReason is not None and "
+            "ghost.n_drop == old(ghost.n_drop) + 1 and ghost.drop_abort)",
+            "implies(old(self.state) == 0, " + NOEFFECT + ")",
+        ], known={len(INV) + 3: "C17-autoping-timeout-after-close"}, **common)
+
+    # ---------------------------------------------------------------- received close frame
+    CLIENT_DROP_TIMER = TIMER_ACTIVE.format(f="self.serverConnectionDropTimeoutCall", d="self.serverConnectionDropTimeout", k=3)
+    CLOSE_TIMER = TIMER_ACTIVE.format(f="self.closeHandshakeTimeoutCall", d="self.closeHandshakeTimeout", k=2)
+    reg.contract(
+        WSP + ".onCloseFrame", props=["C02", "C05", "C17"],
+        params=dict(S, code="opt:int", reasonRaw="opt:bytes"), returns="opt:bool",
+        requires=INV + ["implies(code is not None, 0 <= code <= 65535)", "self.state != 1 and self.state != 4",
+                        "implies(code is None, reasonRaw is None)",     # a reason only follows a status code (5.5.1)
+                        "implies(self.closeHandshakeTimeoutCall is not None, self.closeHandshakeTimeoutCall.kind == 2)"],
+        modifies=sorted(set(FAIL_MOD + ["self.remoteCloseCode", "self.remoteCloseReason", "self.wasClean",
+                                        "self.closeHandshakeTimeoutCall", "self.closeHandshakeTimeoutCall.active",
+                                        "self.serverConnectionDropTimeoutCall", "ghost.timers_armed"])),
+        ensures=INV + [
+            MONO,
+            # ---- C02: verdict on the close payload (code per RFC 6455 7.4 / IANA; reason complete valid UTF-8)
+            "implies(old(self.state) != 0 and code is not None and rfc_close_code_invalid(code), self.failedByMe)",
+            "implies(old(self.state) != 0 and reasonRaw is not None and not utf8_complete(reasonRaw), self.failedByMe)",
+            "implies(not old(self.failedByMe) and (code is None or rfc_close_code_valid(code)) and "
+            "(reasonRaw is None or utf8_complete(reasonRaw)), not self.failedByMe)",
+            "implies(self.failedByMe and not old(self.failedByMe) and self.failByDrop, self.state == 0 and not self.wasClean)",
+            # announced status: 1002 for a bad code (checked first), 1007 for a bad reason
+            "implies(old(self.state) == 3 and not self.failByDrop and code is not None and rfc_close_code_invalid(code), "
+            "ghost.close_frames == 1 and ghost.last_close_payload[0:2] == be16(1002))",
+            "implies(old(self.state) == 3 and not self.failByDrop and (code is None or rfc_close_code_valid(code)) and "
+            "reasonRaw is not None and not utf8_complete(reasonRaw), "
+            "ghost.close_frames == 1 and ghost.last_close_payload[0:2] == be16(1007))",
+            # ---- C05: clean only with close frames in both directions; code/reason reported are the peer's
+            "implies(self.wasClean and not old(self.wasClean), ghost.close_frames == 1)",
+            "implies(old(self.state) != 0 and not old(self.failedByMe) and not self.failedByMe, self.remoteCloseCode is code)",
+            "implies(not old(self.failedByMe) and not self.failedByMe and reasonRaw is None, self.remoteCloseReason is None)",
+            # reply to a peer-initiated close: exactly one close frame; an echoed code has passed validation
+            "implies(old(self.state) == 3 and not self.failedByMe, ghost.close_frames == 1 and "
+            "len(ghost.last_close_payload) <= 125 and (self.state == 2 or self.state == 0))",
+            "implies(old(self.state) == 3 and not self.failedByMe and len(ghost.last_close_payload) >= 2, "
+            "exists_code(ghost.last_close_payload))",
+            # server side: TCP dropped right after the handshake completes
+            "implies(self.factory.isServer and not self.failedByMe and old(self.state) != 0, self.state == 0)",
+            # ---- C05/C17 bounded time: a client left in CLOSING has a drop timer pending (or none is configured)
+            "implies(self.state == 2 and not self.factory.isServer and not self.failedByMe, "
+            + CLIENT_DROP_TIMER + " or " + CLOSE_TIMER + " or not (self.serverConnectionDropTimeout > 0))",
+            # ---- C17: our close frame was answered: the close-handshake timer is cancelled
+            "implies(old(self.state) == 2 and not self.failedByMe, self.closeHandshakeTimeoutCall is None and "
+            "implies(old(self.closeHandshakeTimeoutCall) is not None, not old(self.closeHandshakeTimeoutCall).active))",
+            "implies(old(self.state) == 2 and not self.failedByMe and not self.factory.isServer and "
+            "self.serverConnectionDropTimeout > 0, " + CLIENT_DROP_TIMER + ")",
+        ],
+        known={len(INV) + 15: "C05-client-reply-close-no-drop-timer"}, **common)
+
+    # ---------------------------------------------------------------- transport lost
+    CL_MOD = ["self.serverConnectionDropTimeoutCall", "self.serverConnectionDropTimeoutCall.active",
+              "self.autoPingPendingCall", "self.autoPingPendingCall.active", "self.autoPingTimeoutCall",
+              "self.autoPingTimeoutCall.active", "self.openHandshakeTimeoutCall", "self.openHandshakeTimeoutCall.active",
+              "self.state", "self.is_closed.done", "self.wasNotCleanReason", "ghost.n_onclose", "ghost.onclose_clean",
+              "ghost.onclose_code", "ghost.onclose_reason"]
+    CL_POST = [
+        "self.state == 0",
+        # the application is told exactly once, after the transport is gone
+        "implies(not self.wasServingFlashSocketPolicyFile, ghost.n_onclose == 1 and ghost.onclose_clean == self.wasClean)",
+        "implies(self.wasServingFlashSocketPolicyFile, ghost.n_onclose == 0)",
+        # clean => the peer's code and reason; unclean => 1006
+        "implies(not self.wasServingFlashSocketPolicyFile and self.wasClean, ghost.onclose_code is self.remoteCloseCode "
+        "and ghost.onclose_reason is self.remoteCloseReason)",
+        "implies(not self.wasServingFlashSocketPolicyFile and not self.wasClean, ghost.onclose_code == 1006)",
+        # every timer that could still act on the connection is cancelled
+        "self.autoPingPendingCall is None or not self.autoPingPendingCall.active",
+        "self.autoPingTimeoutCall is None or not self.autoPingTimeoutCall.active",
+        "self.openHandshakeTimeoutCall is None",
+        "implies(not self.factory.isServer, self.serverConnectionDropTimeoutCall is None)",
+        "implies(old(self.openHandshakeTimeoutCall) is not None, not old(self.openHandshakeTimeoutCall).active)",
+        "implies(not self.factory.isServer and old(self.serverConnectionDropTimeoutCall) is not None, "
+        "not old(self.serverConnectionDropTimeoutCall).active)",
+        "self.wasClean == old(self.wasClean)",
+    ]
+    CL_PRE = INV + ["ghost.n_onclose == 0"]     # the framework delivers connectionLost at most once (assumed)
+    reg.contract(WSP + "._connectionLost", props=["C05", "C17"], params=dict(S, reason="any"),
+                 requires=CL_PRE, modifies=CL_MOD, ensures=INV + [MONO] + CL_POST, **common)
+    reg.contract(P + ":WebSocketServerProtocol._connectionLost", props=["C05", "C17"],
+                 params={"self": "obj:WSServer", "reason": "any"}, requires=CL_PRE + ["self.factory.isServer"],
+                 modifies=CL_MOD + ["self.factory.countConnections"], ensures=INV + [MONO] + CL_POST, **common)
+    reg.contract(P + ":WebSocketClientProtocol._connectionLost", props=["C05", "C17"],
+                 params={"self": "obj:WSClient", "reason": "any"}, requires=CL_PRE + ["not self.factory.isServer"],
+                 modifies=CL_MOD, ensures=INV + [MONO] + CL_POST, **common)
+
+
+def build_receive(reg, common):
+    SIZE_BAD = "size_bad(old(self.message_data_total_length), length, self.maxMessagePayloadSize, self.maxFramePayloadSize)"
+    RECV_PRE = INV + ["self.state != 1 and self.state != 4"]
+    # ---------------------------------------------------------------- streaming callbacks (default implementations)
+    reg.contract(WSP + ".onMessageBegin", props=["C16", "C02"], params=dict(S, isBinary="bool"),
+                 modifies=["self.message_is_binary", "self.message_data", "self.message_data_total_length"],
+                 ensures=["self.message_is_binary == isBinary", "self.message_data is not None and len(self.message_data) == 0",
+                          "self.message_data_total_length == 0"], **common)
+    reg.contract(
+        WSP + ".onMessageFrameBegin", props=["C16"], params=dict(S, length="nat"), requires=RECV_PRE,
+        modifies=sorted(set(FAIL_MOD + ["self.frame_length", "self.frame_data", "self.message_data_total_length",
+                                        "self.wasMaxMessagePayloadSizeExceeded", "self.wasMaxFramePayloadSizeExceeded"])),
+        ensures=INV + [
+            MONO, NOT_CLEANER,
+            "self.frame_length == length and self.frame_data is not None and len(self.frame_data) == 0",
+            # the *declared* length is accumulated (before any payload octet is read)
+            "self.message_data_total_length == old(self.message_data_total_length) + length",
+            # fails with 1009 iff a configured limit is exceeded; at or below the limit nothing fails
+            "self.failedByMe == (old(self.failedByMe) or (old(self.state) != 0 and %s))" % SIZE_BAD,
+            "implies(not old(self.failedByMe) and %s and old(self.state) == 3 and not self.failByDrop, self.state == 2 and "
+            "ghost.close_frames == 1 and ghost.last_close_payload[0:2] == be16(1009))" % SIZE_BAD,
+            "implies(not old(self.failedByMe) and %s and old(self.state) != 0 and self.failByDrop, self.state == 0 and "
+            "not self.wasClean)" % SIZE_BAD,
+            "implies(old(self.failedByMe) or not %s, self.state == old(self.state) and "
+            "ghost.close_frames == old(ghost.close_frames) and ghost.n_drop == old(ghost.n_drop) and "
+            "self.wasClean == old(self.wasClean))" % SIZE_BAD,
+        ], **common)
+    reg.contract(
+        WSP + ".onMessageFrameData", props=["C16", "C02"], params=dict(S, payload="bytes"),
+        requires=["self.frame_data is not None"], modifies=["self.frame_data"],
+        ensures=[
+            "self.frame_data is not None",
+            # nothing is buffered once the connection has been failed
+            "implies(self.failedByMe, self.frame_data is old(self.frame_data) and len(self.frame_data) == old(len(self.frame_data)))",
+            "implies(not self.failedByMe, len(self.frame_data) == old(len(self.frame_data)) + 1 and "
+            "self.frame_data[len(self.frame_data) - 1] == payload and "
+            "join(self.frame_data) == old(join(self.frame_data)) + payload)"],
+        **common)
+    reg.contract(
+        WSP + ".onMessageFrame", props=["C16", "C02"], params=dict(S, payload="list:bytes"),
+        requires=["self.message_data is not None"], modifies=["self.message_data"],
+        ensures=["self.message_data is not None",
+                 "implies(self.failedByMe, len(self.message_data) == old(len(self.message_data)))",
+                 "implies(not self.failedByMe, join(self.message_data) == old(join(self.message_data)) + join(payload))"],
+        **common)
+    reg.contract(
+        WSP + ".onMessageFrameEnd", props=["C16", "C02"], params=dict(S),
+        requires=["self.message_data is not None and self.frame_data is not None"],
+        modifies=["self.message_data", "self.frame_data"],
+        ensures=["self.frame_data is None", "self.message_data is not None",
+                 "implies(self.failedByMe, len(self.message_data) == old(len(self.message_data)))",
+                 "implies(not self.failedByMe, join(self.message_data) == old(join(self.message_data)) + old(join(self.frame_data)))"],
+        **common)
+    reg.contract(
+        WSP + ".onMessageEnd", props=["C16", "C02"], params=dict(S),
+        requires=["self.message_data is not None"],
+        modifies=["self.message_data", "ghost.delivered", "ghost.delivered_binary"],
+        ensures=[
+            "self.message_data is None",
+            # delivered exactly once, whole, with its type -- and never after the connection was failed
+            "implies(not self.failedByMe, len(ghost.delivered) == old(len(ghost.delivered)) + 1 and "
+            "ghost.delivered[len(ghost.delivered) - 1] == old(join(self.message_data)) and "
+            "ghost.delivered_binary[len(ghost.delivered_binary) - 1] == self.message_is_binary)",
+            "implies(self.failedByMe, len(ghost.delivered) == old(len(ghost.delivered)))"],
+        **common)
+    build_frames(reg, common, RECV_PRE)
+
+
+def build_frames(reg, common, RECV_PRE):
+    CF = "self.current_frame"
+    DATA_MOD = sorted(set(FAIL_MOD + [
+        "self.control_frame_data", "self.inside_message", "self._isMessageCompressed", "self.utf8validator._state",
+        "self.utf8validator._index", "self.utf8validator._codepoint", "self.utf8validateIncomingCurrentMessage", "self.utf8validateLast",
+        "self.message_is_binary", "self.message_data", "self.message_data_total_length", "self.frame_length",
+        "self.frame_data", "self.wasMaxMessagePayloadSizeExceeded", "self.wasMaxFramePayloadSizeExceeded"]))
+    TOTAL0 = "(old(self.message_data_total_length) if old(self.inside_message) else 0)"
+    SIZE_BAD = ("size_bad(%s, self.current_frame.length, self.maxMessagePayloadSize, self.maxFramePayloadSize)" % TOTAL0)
+    # ---------------------------------------------------------------- onFrameBegin
+    reg.contract(
+        WSP + ".onFrameBegin", props=["C02", "C16"], params=dict(S),
+        requires=RECV_PRE + [CF + " is not None",
+                             "implies(%s.opcode <= 7 and self.inside_message, self.message_data is not None)" % CF],
+        modifies=DATA_MOD,
+        ensures=INV + [
+            MONO, NOT_CLEANER,
+            "implies(%s.opcode > 7, self.control_frame_data is not None and len(self.control_frame_data) == 0 and "
+            "self.failedByMe == old(self.failedByMe) and self.state == old(self.state) and "
+            "self.inside_message == old(self.inside_message) and self.message_data is old(self.message_data) and "
+            "ghost.close_frames == old(ghost.close_frames) and ghost.n_drop == old(ghost.n_drop))" % CF,
+            # data frame: the declared length is checked against the limits before any payload octet is read
+            "implies(%s.opcode <= 7, self.inside_message and self.frame_data is not None and len(self.frame_data) == 0 and "
+            "self.message_data is not None and "
+            "self.message_data_total_length == %s + %s.length)" % (CF, TOTAL0, CF),
+            "implies(%s.opcode <= 7, self.failedByMe == (old(self.failedByMe) or (old(self.state) != 0 and %s)))" % (CF, SIZE_BAD),
+            "implies(%s.opcode <= 7 and not old(self.failedByMe) and %s and old(self.state) == 3 and not self.failByDrop, "
+            "self.state == 2 and ghost.close_frames == 1 and ghost.last_close_payload[0:2] == be16(1009))" % (CF, SIZE_BAD),
+            "implies(%s.opcode <= 7 and (old(self.failedByMe) or not %s), self.state == old(self.state) and "
+            "ghost.close_frames == old(ghost.close_frames) and ghost.n_drop == old(ghost.n_drop))" % (CF, SIZE_BAD),
+            # first frame of a message: type, empty buffers, UTF-8 validation armed for text messages
+            "implies(%s.opcode <= 7 and not old(self.inside_message), len(self.message_data) == 0 and "
+            "self.message_is_binary == (%s.opcode == 2) and "
+            "self.utf8validateIncomingCurrentMessage == (%s.opcode == 1 and self.utf8validateIncoming) and "
+            "implies(self.utf8validateIncomingCurrentMessage, self.utf8validator._state == 0 and self.utf8validateLast[1]))"
+            % (CF, CF, CF),
+            "implies(%s.opcode <= 7 and old(self.inside_message), self.message_data is old(self.message_data) and "
+            "len(self.message_data) == old(len(self.message_data)) and "
+            "self.utf8validateIncomingCurrentMessage == old(self.utf8validateIncomingCurrentMessage) and "
+            "self.utf8validator._state == old(self.utf8validator._state) and "
+            "self.utf8validateLast[1] == old(self.utf8validateLast[1]))" % CF,
+        ], **common)
+
+    # ---------------------------------------------------------------- onFrameData
+    VALID_CHUNK = "utf8_run(from_table(old(self.utf8validator._state)), payload, len(payload)) != 8"
+    reg.contract(
+        WSP + ".onFrameData", props=["C02", "C16"], params=dict(S, payload="bytes"), returns="opt:bool",
+        requires=RECV_PRE + [CF + " is not None", "not self._isMessageCompressed",
+                             "implies(%s.opcode > 7, self.control_frame_data is not None)" % CF,
+                             "implies(%s.opcode <= 7, self.frame_data is not None)" % CF,
+                             "len(payload) < 2**62 and self.utf8validator._index + len(payload) < 2**63"],
+        modifies=sorted(set(FAIL_MOD + ["self.control_frame_data", "self.frame_data", "self.utf8validator._state",
+                                        "self.utf8validator._index", "self.utf8validateLast"])),
+        ensures=INV + [
+            MONO, NOT_CLEANER,
+            "implies(%s.opcode > 7, join(self.control_frame_data) == old(join(self.control_frame_data)) + payload and "
+            "self.failedByMe == old(self.failedByMe) and self.state == old(self.state))" % CF,
+            # text message payload: fail with 1007 at the first chunk that makes the octets so far invalid UTF-8
+            "implies(%s.opcode <= 7 and self.utf8validateIncomingCurrentMessage and old(self.state) != 0 and not (%s), "
+            "self.failedByMe)" % (CF, VALID_CHUNK),
+            "implies(%s.opcode <= 7 and self.utf8validateIncomingCurrentMessage and old(self.state) == 3 and not (%s) "
+            "and not self.failByDrop, ghost.close_frames == 1 and ghost.last_close_payload[0:2] == be16(1007))" % (CF, VALID_CHUNK),
+            "implies(%s.opcode <= 7 and self.utf8validateIncomingCurrentMessage and old(self.state) != 0 and not (%s) "
+            "and self.failByDrop, result is False and self.state == 0)" % (CF, VALID_CHUNK),
+            "implies(%s.opcode <= 7 and (not self.utf8validateIncomingCurrentMessage or %s), "
+            "self.failedByMe == old(self.failedByMe) and self.state == old(self.state) and result is None)" % (CF, VALID_CHUNK),
+            "implies(%s.opcode <= 7 and self.utf8validateIncomingCurrentMessage and %s, "
+            "self.utf8validator._state == to_table(utf8_run(from_table(old(self.utf8validator._state)), payload, len(payload))) "
+            "and self.utf8validateLast[1] == (self.utf8validator._state == 0))" % (CF, VALID_CHUNK),
+            # buffered only while the connection has not been failed
+            "implies(%s.opcode <= 7 and not self.failedByMe and not (result is False), "
+            "join(self.frame_data) == old(join(self.frame_data)) + payload)" % CF,
+            "implies(%s.opcode <= 7 and self.failedByMe and not (result is False), len(self.frame_data) == old(len(self.frame_data)))" % CF,
+        ], **common)
+
+    # ---------------------------------------------------------------- ping / pong
+    reg.contract(
+        WSP + ".sendPong", props=["C02", "C05"], params=dict(S, payload="opt:bytes"), requires=INV,
+        modifies=GHOST_FRAME,
+        ensures=INV + [
+            "implies(self.state == 3, ghost.frames_sent == old(ghost.frames_sent) + 1 and ghost.last_frame_opcode == 10 "
+            "and ghost.last_frame_payload == (payload if payload is not None else b'') and ghost.last_frame_fin)",
+            "implies(self.state != 3, ghost.frames_sent == old(ghost.frames_sent))",      # nothing is written unless OPEN
+            "ghost.close_frames == old(ghost.close_frames)"],
+        raises={"Exception": "self.state == 3 and payload is not None and len(payload) > 125"}, **common)
+    reg.contract(
+        WSP + ".sendPing", props=["C05", "C17"], params=dict(S, payload="opt:bytes"), requires=INV,
+        modifies=GHOST_FRAME,
+        ensures=INV + [
+            "implies(self.state == 3, ghost.frames_sent == old(ghost.frames_sent) + 1 and ghost.last_frame_opcode == 9 "
+            "and ghost.last_frame_payload == (payload if payload is not None else b''))",
+            "implies(self.state != 3, ghost.frames_sent == old(ghost.frames_sent))",
+            "ghost.close_frames == old(ghost.close_frames)"],
+        raises={"Exception": "self.state == 3 and payload is not None and len(payload) > 125"}, **common)
+    reg.contract(
+        WSP + ".onPing", props=["C02"], params=dict(S, payload="bytes"), requires=INV + ["len(payload) <= 125"],
+        modifies=GHOST_FRAME,
+        ensures=INV + [
+            # every ping received while OPEN is answered by a pong carrying the same payload
+            "implies(self.state == 3, ghost.frames_sent == old(ghost.frames_sent) + 1 and ghost.last_frame_opcode == 10 "
+            "and ghost.last_frame_payload == payload)",
+            "implies(self.state != 3, ghost.frames_sent == old(ghost.frames_sent))",
+            "ghost.close_frames == old(ghost.close_frames)"], **common)
+
+    build_control(reg, common, RECV_PRE, DATA_MOD)
+
+
+def build_control(reg, common, RECV_PRE, DATA_MOD):
+    CF = "self.current_frame"
+    PING_MOD = ["self.autoPingPending", "self.autoPingPendingSent", "self.autoPingTimeoutCall",
+                "self.autoPingTimeoutCall.active", "self.autoPingPendingCall", "self.autoPingPendingCall.active",
+                "ghost.timers_armed", "ghost.pongs_received"]
+    CLOSE_MOD = ["self.remoteCloseCode", "self.remoteCloseReason", "self.wasClean", "self.closeHandshakeTimeoutCall",
+                 "self.closeHandshakeTimeoutCall.active", "self.serverConnectionDropTimeoutCall"]
+    TIMER_KINDS_OK = ["implies(self.closeHandshakeTimeoutCall is not None, self.closeHandshakeTimeoutCall.kind == 2)"]
+    PING_TIMER = ("(self.autoPingPendingCall is not None and self.autoPingPendingCall.active and "
+                  "self.autoPingPendingCall.delay == self.autoPingInterval and self.autoPingPendingCall.kind == 5)")
+    # ---------------------------------------------------------------- processControlFrame
+    reg.contract(
+        WSP + ".processControlFrame", props=["C02", "C17"], params=dict(S), returns="bool",
+        requires=RECV_PRE + TIMER_KINDS_OK + [
+            CF + " is not None and " + CF + ".opcode > 7", "self.control_frame_data is not None",
+            "len(join(self.control_frame_data)) <= 125",
+            "implies(%s.opcode == 8, len(join(self.control_frame_data)) != 1)" % CF,
+            # an outstanding auto-ping payload is (sent-time: 8, sequence: 4, random: autoPingSize - 12) octets
+            "implies(self.autoPingPending is not None, len(self.autoPingPending) >= 12)"],
+        modifies=sorted(set(FAIL_MOD + ["self.control_frame_data"] + PING_MOD + CLOSE_MOD)),
+        ensures=INV + [
+            MONO, "self.control_frame_data is None",
+            # ping: answered by a pong with the same payload while OPEN
+            "implies(%s.opcode == 9 and self.state == 3, ghost.frames_sent == old(ghost.frames_sent) + 1 and "
+            "ghost.last_frame_opcode == 10 and ghost.last_frame_payload == old(join(self.control_frame_data)))" % CF,
+            "implies(%s.opcode == 9, self.state == old(self.state) and self.failedByMe == old(self.failedByMe) and "
+            "ghost.close_frames == old(ghost.close_frames))" % CF,
+            # pong: delivered; the matching auto-ping timeout is cancelled and the next ping scheduled
+            "implies(%s.opcode == 10, len(ghost.pongs_received) == old(len(ghost.pongs_received)) + 1 and "
+            "self.state == old(self.state) and self.failedByMe == old(self.failedByMe) and "
+            "ghost.frames_sent == old(ghost.frames_sent))" % CF,
+            "implies(%s.opcode == 10 and old(self.autoPingPending) is not None and "
+            "old(join(self.control_frame_data)) == old(self.autoPingPending), self.autoPingPending is None and "
+            "self.autoPingTimeoutCall is None and "
+            "implies(old(self.autoPingTimeoutCall) is not None, not old(self.autoPingTimeoutCall).active) and "
+            "implies(self.autoPingInterval > 0, %s))" % (CF, PING_TIMER),
+            "implies(%s.opcode == 10 and (old(self.autoPingPending) is None or "
+            "old(join(self.control_frame_data)) != old(self.autoPingPending)), "
+            "self.autoPingTimeoutCall is old(self.autoPingTimeoutCall) and self.autoPingPending is old(self.autoPingPending))" % CF,
+            # close: the verdict on code / reason is that of onCloseFrame (its own unit); first violation fails the connection
+            "implies(%s.opcode == 8 and old(self.state) != 0 and len(old(join(self.control_frame_data))) >= 2 and "
+            "rfc_close_code_invalid(old(join(self.control_frame_data))[0] * 256 + old(join(self.control_frame_data))[1]), "
+            "self.failedByMe)" % CF,
+            "implies(%s.opcode == 8 and len(old(join(self.control_frame_data))) == 0 and not old(self.failedByMe), "
+            "not self.failedByMe)" % CF,
+        ],
+        known={}, **common)
+    # ---------------------------------------------------------------- auto-ping restart on traffic (C17)
+    reg.contract(
+        WSP + "._cancelAutoPingTimeoutCall", props=["C17"], params=dict(S),
+        requires=["self.autoPingTimeoutCall is not None"], modifies=PING_MOD,
+        ensures=[
+            "self.autoPingTimeoutCall is None and not old(self.autoPingTimeoutCall).active and self.autoPingPending is None",
+            "implies(old(self.autoPingPendingCall) is not None, not old(self.autoPingPendingCall).active)",
+            # pings keep being scheduled at the configured interval
+            "implies(self.autoPingInterval > 0, %s)" % PING_TIMER,
+            "implies(not (self.autoPingInterval > 0), self.autoPingPendingCall is None)",
+            "len(ghost.pongs_received) == old(len(ghost.pongs_received))"], **common)
+
+    # ---------------------------------------------------------------- onFrameEnd
+    FIN_OK = ("(old(%s.fin) and (not self.utf8validateIncomingCurrentMessage or old(self.utf8validateLast[1])))" % CF)
+    reg.contract(
+        WSP + ".onFrameEnd", props=["C02", "C16", "C17"], params=dict(S), returns="opt:bool",
+        requires=RECV_PRE + TIMER_KINDS_OK + [
+            CF + " is not None", "not self._isMessageCompressed",
+            "implies(%s.opcode > 7, self.control_frame_data is not None and len(join(self.control_frame_data)) <= 125 and "
+            "implies(%s.opcode == 8, len(join(self.control_frame_data)) != 1))" % (CF, CF),
+            "implies(%s.opcode <= 7, self.frame_data is not None and self.message_data is not None)" % CF,
+            "implies(self.autoPingPending is not None, len(self.autoPingPending) >= 12)"],
+        modifies=sorted(set(FAIL_MOD + ["self.control_frame_data", "self.frame_data", "self.message_data",
+                                        "self.inside_message", "self.current_frame", "ghost.delivered",
+                                        "ghost.delivered_binary"] + PING_MOD + CLOSE_MOD)),
+        ensures=INV + [
+            MONO, "implies(not (result is False), self.current_frame is None)",
+            # data frame that does not end a message: nothing is delivered yet
+            "implies(old(%s.opcode) <= 7 and not old(%s.fin), len(ghost.delivered) == old(len(ghost.delivered)) and "
+            "self.inside_message == old(self.inside_message) and self.failedByMe == old(self.failedByMe))" % (CF, CF),
+            # final frame of a text message that stops inside a code point: invalid payload (1007), nothing delivered
+            "implies(old(%s.opcode) <= 7 and old(%s.fin) and self.utf8validateIncomingCurrentMessage and "
+            "not old(self.utf8validateLast[1]) and old(self.state) != 0, self.failedByMe and "
+            "len(ghost.delivered) == old(len(ghost.delivered)))" % (CF, CF),
+            "implies(old(%s.opcode) <= 7 and old(%s.fin) and self.utf8validateIncomingCurrentMessage and "
+            "not old(self.utf8validateLast[1]) and old(self.state) == 3 and not self.failByDrop, "
+            "ghost.close_frames == 1 and ghost.last_close_payload[0:2] == be16(1007))" % (CF, CF),
+            # complete message: delivered exactly once, whole (all frames' payload in order), with its type
+            "implies(old(%s.opcode) <= 7 and %s and not old(self.failedByMe), "
+            "len(ghost.delivered) == old(len(ghost.delivered)) + 1 and "
+            "ghost.delivered[len(ghost.delivered) - 1] == old(join(self.message_data)) + old(join(self.frame_data)) and "
+            "ghost.delivered_binary[len(ghost.delivered_binary) - 1] == self.message_is_binary and "
+            "not self.inside_message and not self.failedByMe)" % (CF, FIN_OK),
+            # no message after the connection has been failed
+            "implies(old(self.failedByMe), len(ghost.delivered) == old(len(ghost.delivered)))",
+            "implies(old(%s.opcode) > 7, len(ghost.delivered) == old(len(ghost.delivered)))" % CF,
+        ], **common)
